@@ -133,9 +133,11 @@ impl Default for SortConfig {
                 .ok()
                 .and_then(|s| s.parse::<f64>().ok())
                 .unwrap_or(f64::MAX) as usize,
+            // A block size of 0 is as unusable as an unparsable value (block_binary_search divides by it)
             cache_block_size: env::var("SORTABLE_CACHE_BLOCK")
                 .ok()
                 .and_then(|s| s.parse().ok())
+                .filter(|&block: &usize| block > 0)
                 .unwrap_or(256),
             enable_prefetch: env::var("SORTABLE_PREFETCH")
                 .ok()
